@@ -34,11 +34,12 @@ ApiAllowed(e) == IF ApiOp(e) \in {"cancel", "requeue", "resume", "requeuedead", 
 ApiRefusesEvent(e) ==
   LET c == e.api
       f == ApiFilter(e)
-  IN Refuses(c.surface, c.kind, c.form, c.audit, c.limit_absent, c.limit_wire, c.tids, f.st, ApiAllowed(e), f.rt, SeqRange(c.managed))
+  IN \/ Refuses(c.surface, c.kind, c.form, c.audit, c.limit_absent, c.limit_wire, c.tids, f.st, ApiAllowed(e), f.rt, SeqRange(c.managed))
+     \/ ActorMayRefuse(c.kind, c.form, c.actor_ok, SeqRange(c.managed))
 
 ApiMustRefuseEvent(e) ==
   LET c == e.api
-  IN MustRefuse(c.kind, c.form, c.audit, ApiFilter(e).rt, SeqRange(c.managed))
+  IN MustRefuse(c.kind, c.form, c.audit, ApiFilter(e).rt, SeqRange(c.managed)) \/ ActorMustRefuse(c.kind, c.form, c.actor_ok)
 
 \* a passed operator call: not one the layer must refuse, and the wire spelling binds to the abstract arguments
 ApiPass ==
